@@ -45,6 +45,9 @@ CASE_TIMEOUT = {'quick': 240, 'thorough': 600}
 NUM = re.compile(r'^[-+]?(\d+\.?\d*|\.\d+)([eE][-+]?\d+)?$')
 
 
+# appended to RULE in the evidence (vlib/runner.py)
+RULE_ADDENDUM = 'Added in round 4: start clock times in every hour of the day (G-model).'
+
 def n_cases(tier):
     return 200 if tier == 'quick' else 10000
 
